@@ -1,7 +1,7 @@
 (* Dispatch.v -- one entry point per property for the OCaml driver. *)
 From Coq Require Import ZArith List.
 From CiwV Require Import Sx.
-From CiwV Require Acc.C01 Acc.C02 Acc.C04 Acc.C06 Acc.C07.
+From CiwV Require Acc.C01 Acc.C02 Acc.C04 Acc.C05 Acc.C06 Acc.C07 Acc.C08.
 Import ListNotations.
 Open Scope Z_scope.
 
@@ -10,8 +10,10 @@ Definition dispatch (name : Z) (s : sx) : verdict :=
   | 1 => C01.run s
   | 2 => C02.run s
   | 4 => C04.run s
+  | 5 => C05.run s
   | 6 => C06.run s
   | 7 => C07.run s
+  | 8 => C08.run s
   | _ => BadInput (-1)
   end.
 
